@@ -107,6 +107,8 @@ impl<'a> SchemaConstructionState<'a> {
 		raw_schema: &'a raw::SchemaNode<'a>,
 		enclosing_namespace: Option<&'a str>,
 	) -> Result<SchemaKey, SchemaError> {
+		#[cfg(ten0_serde_avro_fast_verif)]
+		crate::schema::verif_hooks::tick();
 		enum TypeOrUnion<'r, 'a> {
 			Type(raw::Type),
 			Union(&'r Vec<raw::SchemaNode<'a>>),
